@@ -39,7 +39,7 @@ func regexMatchSet(f, pat string) []int {
 				out = append(out, i)
 			}
 		}
-	case "S", "W", "N", "PY":
+	case "S", "W", "N", "PY", "R":
 		u := caseLower
 		if CaseKind[f] == "upper" {
 			u = caseUpper
@@ -59,7 +59,7 @@ func regexMatchSet(f, pat string) []int {
 
 func isStringField(f string) bool {
 	switch f {
-	case "Z", "S", "W", "N", "PY":
+	case "Z", "S", "W", "N", "PY", "R":
 		return true
 	}
 	return false
